@@ -445,8 +445,10 @@ func ruleCachedDelegates(c *Ctx) {
 				if ie, ok := ast.Unparen(as.Lhs[0]).(*ast.IndexExpr); ok && objOfIdent(info, as.Rhs[0]) == rv {
 					if o := objOfIdent(info, ie.X); o != nil {
 						idx[o] = true
-						if ko, kp := selectorPath(info, ie.Index); ko == rv && len(kp) > 0 {
-							fillKey[o] = kp[len(kp)-1]
+						if rv != nil {
+							if kt := canonTerm(fi, ie.Index); strings.HasPrefix(kt, rv.Name()+".") {
+								fillKey[o] = strings.TrimPrefix(kt, rv.Name()+".")
+							}
 						}
 					}
 				}
@@ -475,8 +477,8 @@ func ruleCachedDelegates(c *Ctx) {
 				if cl, ok := ast.Unparen(call.Args[1]).(*ast.CompositeLit); ok && len(cl.Elts) == 1 {
 					if ie, ok := ast.Unparen(cl.Elts[0]).(*ast.IndexExpr); ok && idx[objOfIdent(info, ie.X)] {
 						// key derived from the want, and it is the field the index was filled by
-						o, kp := selectorPath(info, ie.Index)
-						if o != wv || len(kp) == 0 || kp[len(kp)-1] != fillKey[objOfIdent(info, ie.X)] {
+						kt := canonTerm(fi, ie.Index)
+						if wv == nil || !strings.HasPrefix(kt, wv.Name()+".") || fillKey[objOfIdent(info, ie.X)] == "" || strings.TrimPrefix(kt, wv.Name()+".") != fillKey[objOfIdent(info, ie.X)] {
 							good = false
 						}
 					} else {
@@ -588,8 +590,130 @@ func ruleGetEntriesLookups(c *Ctx) {
 	}
 	// the cache is per network instance: both switches work on the cache selected by the entry's / want's network instance
 	c.check(bad == "", rule, fi.Name, "each kind is indexed and looked up in its own per-instance cache; absent ⇒ Fatal", c.P.pos(fi.Decl.Pos()), fmt.Sprintf("index: %v", a), bad)
-	// unknown network instance in the want is fatal; missing network instance / entry in the want is fatal
-	paths, pe := enumFunc(fi, func(ast.Node) []Event { return nil }, nil)
-	_ = paths
-	_ = pe
+	// the cache is per network instance: on every path the cache written / read in
+	// an arm is the one bound to the instance of the entry (index loop) or of the want (lookup loop)
+	for li, ts := range switches {
+		loopName := []string{"index", "lookup"}[li]
+		var loop *ast.RangeStmt
+		ast.Inspect(fi.Decl.Body, func(n ast.Node) bool {
+			if rs, ok := n.(*ast.RangeStmt); ok && rs.Body.Pos() <= ts.Pos() && ts.End() <= rs.Body.End() {
+				loop = rs
+			}
+			return true
+		})
+		if loop == nil {
+			c.vanished(rule, fi.Name, loopName+" loop", "the "+loopName+" switch is not inside a range loop")
+			continue
+		}
+		rv := objOfIdent(info, loop.Value)
+		if rv == nil {
+			c.vanished(rule, fi.Name, loopName+" loop", "the loop has no value variable")
+			continue
+		}
+		// the key of this iteration's instance: <something derived from the loop value>.NetworkInstance
+		isInstKey := func(e ast.Expr) bool {
+			t := canonTerm(fi, e)
+			return strings.HasSuffix(t, ".NetworkInstance") && strings.HasPrefix(t, rv.Name()+".")
+		}
+		cacheVarOf := func(e ast.Expr) types.Object { // X in X.field[k]
+			ie, ok := ast.Unparen(e).(*ast.IndexExpr)
+			if !ok {
+				return nil
+			}
+			se, ok := ast.Unparen(ie.X).(*ast.SelectorExpr)
+			if !ok {
+				return nil
+			}
+			return objOfIdent(info, se.X)
+		}
+		// which local is the cache used in the arms
+		var cv types.Object
+		ast.Inspect(ts, func(n ast.Node) bool {
+			if e, ok := n.(ast.Expr); ok && cv == nil {
+				if o := cacheVarOf(e); o != nil {
+					if _, isVar := o.(*types.Var); isVar {
+						cv = o
+					}
+				}
+			}
+			return true
+		})
+		if cv == nil {
+			c.vanished(rule, fi.Name, loopName+" loop", "no cache variable used in the arms")
+			continue
+		}
+		ev := func(n ast.Node) []Event {
+			var out []Event
+			inspectNoFuncLit(n, func(m ast.Node) bool {
+				switch x := m.(type) {
+				case *ast.AssignStmt:
+					// cv (, ok) := M[key]   |   cv = <other>   |   M[key] = cv / M[key] = &cache{…}
+					for i, l := range x.Lhs {
+						if objOfIdent(info, l) == cv {
+							var rhs ast.Expr
+							if len(x.Rhs) == len(x.Lhs) {
+								rhs = x.Rhs[i]
+							} else if i == 0 && len(x.Rhs) == 1 {
+								rhs = x.Rhs[0]
+							}
+							k := "cache←other"
+							if ie, ok := ast.Unparen(rhs).(*ast.IndexExpr); ok && isInstKey(ie.Index) {
+								k = "cache←lookup"
+							}
+							out = append(out, Event{Kind: k, Node: x})
+						}
+						if ie, ok := ast.Unparen(l).(*ast.IndexExpr); ok && len(x.Rhs) == len(x.Lhs) && isInstKey(ie.Index) {
+							if objOfIdent(info, x.Rhs[i]) == cv {
+								out = append(out, Event{Kind: "bind-cache", Node: x})
+							} else {
+								out = append(out, Event{Kind: "bind-other", Node: x})
+							}
+						}
+					}
+				}
+				if e, ok := m.(ast.Expr); ok {
+					if cacheVarOf(e) == cv {
+						out = append(out, Event{Kind: "use", Node: m})
+					}
+				}
+				return true
+			})
+			sort.SliceStable(out, func(i, j int) bool { return out[i].Node.Pos() < out[j].Node.Pos() })
+			return out
+		}
+		paths, pe2 := enumPaths(info, loop.Body.List, ev)
+		c.Sites += len(paths)
+		if pe2.overflow {
+			c.undecided(rule, fi.Name, loopName+" loop: cache of the instance", c.P.pos(loop.Pos()), "path enumeration incomplete")
+			continue
+		}
+		badNI := ""
+		uses := 0
+		for _, p := range paths {
+			state := "unbound" // how cv was last set on this path
+			for _, e := range p.Events {
+				switch e.Kind {
+				case "cache←lookup":
+					state = "bound"
+				case "cache←other":
+					state = "fresh"
+				case "bind-cache":
+					if state == "fresh" {
+						state = "bound"
+					}
+				case "bind-other":
+					// the map entry of this instance was replaced by something else: a cache bound by an earlier lookup is stale
+					if state == "bound" {
+						state = "stale"
+					}
+				case "use":
+					uses++
+					if state != "bound" {
+						badNI = fmt.Sprintf("in the %s loop the cache %s is used (%s) on a path where it is not the cache of this iteration's network instance (%s): entries of one instance are %s under another: %s", loopName, cv.Name(), types.ExprString(e.Node.(ast.Expr)), state, map[string]string{"index": "indexed", "lookup": "looked up"}[loopName], p.describe(c.P))
+					}
+				}
+			}
+		}
+		c.check(badNI == "" && uses >= 5, rule, fi.Name, loopName+" loop: the cache used is the one of the entry's own network instance", c.P.pos(loop.Pos()), fmt.Sprintf("%d uses on %d paths, each after binding the cache to <value>.NetworkInstance", uses, len(paths)), badNI)
+	}
 }
